@@ -1448,8 +1448,10 @@ private:
                 val = binary::big_to_native<uint64_t>(buf, sizeof(buf));
                 break;
             }
-            default:
-                break;
+            default: // 28-30 are reserved, 31 has no argument (RFC 8949, section 3)
+                ec = cbor_errc::unknown_type;
+                more_ = false;
+                return 0;
         }
         return val;
     }
@@ -1539,6 +1541,10 @@ private:
                             val = static_cast<int64_t>(-1)- static_cast<int64_t>(x);
                             break;
                         }
+                    default: // 28-30 are reserved, 31 has no argument (RFC 8949, section 3)
+                        ec = cbor_errc::unknown_type;
+                        more_ = false;
+                        return val;
                 }
                 break;
 
